@@ -441,6 +441,26 @@ def run(ctx, replay=None):
                                    'impl_error_kinds': dict(errkinds)},
         'timing_s': {'model': round(t_model, 1), 'tie': round(t_tie, 1)},
     }
+    # ---- the reported values (C08: indicators and the horizon they refer to; C09: level sequences and change times): what
+    # build_solution / clean_buffer_levels hand to the user, real library against Solution.v, on a slice of the programs ----
+    if ctx.prop in ('C08', 'C09'):
+        import engine_sol
+        want = (lambda l: l.startswith(('IND ', 'HORIZON '))) if ctx.prop == 'C08' else (lambda l: l.startswith('BUF '))
+        has = 'ONewIndicator' if ctx.prop == 'C08' else 'ONewBuffer'
+        pool = [p for p in progs if any(o[0] == has for o in p)]
+        sl = pool[:(40 if quick else 400)]
+        try:
+            sstats, sbreaks = engine_sol.solution_slice(ctx, sl, want)
+        except Exception as ex:
+            sstats, sbreaks = {'error': str(ex)[:300]}, [(0, 0, (['solution slice failed: ' + str(ex)[:300]], []))]
+        for (i, k, d) in sbreaks[:3]:
+            path = common.write_replay(ctx, 'report', {
+                'kind': 'correspondence-broken', 'observable': 'O5 reported values (build_solution / clean_buffer_levels)', 'property': ctx.prop,
+                'program': terms.dump(sl[i]), 'program_pretty': pretty(sl[i]), 'solution_index': k,
+                'only_in_impl__only_in_model': d,
+                'what_it_means': 'the values reported to the user differ from the values of the schedule the solver found (as Solution.v builds them)'})
+            common.violation(ctx, path)
+        cov['reported_values_slice'] = {'programs': len(sl), **sstats, 'breaks': len(sbreaks)}
     cov.update(evidence_cov)
     common.write_evidence(ctx, 'proof', cov, [
         'the theorem is about the Coq model; the model is tied to /repo only on the sampled programs (per program the comparison is exact, by z3)',
